@@ -68,6 +68,7 @@ SPEC_MUTANTS = {
     "C12": [("upper-case encoder", "HexChar(n) == IF n < 10 THEN 48 + n ELSE 87 + n", "HexChar(n) == IF n < 10 THEN 48 + n ELSE 55 + n", "InvStr", ["str"]),
             ("sender-side items start one argument early", "first == IF atSender THEN 3 ELSE 2 IN", "first == IF atSender THEN 2 ELSE 2 IN", "InvXf", ["xf"]),
             ("odd-length hex accepted", "HexOK(t) == Len(t) % 2 = 0 /\\", "HexOK(t) ==", "InvStr", ["str"]),
+            ("SetLast appends instead of replacing", "ELSE [st EXCEPT !.es[Len(st.es)] = o.s]", "ELSE [st EXCEPT !.es = Append(@, o.s)]", "InvBld", ["bld"]),
             ("storage updates keep the leading separator", "TrimLeadingAt(s) == IF Len(s) > 0 /\\ s[1] = AT THEN SubSeq(s, 2, Len(s)) ELSE s", "TrimLeadingAt(s) == s", "InvArgs", ["args"])],
     "C14": [("zero amount as one byte", "ELSE IF a.mag = <<>> THEN <<0, 0>>", "ELSE IF a.mag = <<>> THEN <<0>>", "InvAmt", ["amt"]),
             ("empty repeated element dropped", "RepField(f, bs) == Cat([i \\in 1..Len(bs) |-> LenField(f, bs[i])])", "RepField(f, bs) == Cat([i \\in 1..Len(bs) |-> BytesField(f, bs[i])])", "InvRoles", ["roles"]),
@@ -321,10 +322,13 @@ def run_c12(run):
         fg = [ex.submit(generate, run, mode, gen_cfg(mode, maxlen, xlen, mlen, blen, cb), out)
               for mode, out in (("c12s", "t_strs.ndjson"), ("c12x", "t_xfer.ndjson"), ("c12b", "t_build.ndjson"))]
         fmut = ex.submit(spec_mutants, run, cb, [0, 1] if quick else [0, 1, 2, 3])
+        # the builder OBJECT as a state machine: every sequence of 3 (quick) / 4 (thorough) operations over its operation alphabet
+        fb = ex.submit(run.model_check, "WireMC", mc_cfg(["bld"], 3 if quick else 4, 3, 2, cb, ["InvBld"]), "WireMC-C12-builder", 1500 if quick else 3000)
         ok, o, info = fm.result()
         tables = [f.result() for f in fg]
         muts = fmut.result()
-    if not info["complete"]:
+        okb, ob, infob = fb.result()
+    if not info["complete"] or not infob["complete"]:
         raise Infra("the law configuration was not explored completely")
     nstr = sum(6 ** i for i in range(maxlen + 1))
     if tables[0][1] != nstr:
@@ -345,7 +349,7 @@ def run_c12(run):
     finish_cov(run, st, c, accepted, lines, files, P12, nself, muts,
                "distinct_nontrivial = number of distinct inputs (hash of the input part of the row) that are not trivially rejected: strings with at least one separator "
                "accepted by some parser, transfer-parser inputs naming a transfer function with >= 2 arguments, builder inputs with >= 1 element, all deploy inputs, "
-               "non-empty storage-update lists, transfer messages that were emitted; measured by the harness over the whole observed table",
+               "non-empty storage-update lists, transfer messages that were emitted, builder histories of >= 2 operations; measured by the harness over the whole observed table",
                "every string up to length %d over one representative per character class {letter, '@', lower hex, upper hex, digit, non-hex} (%d strings; representatives "
                "chosen by the seed: %s); transfer-parser argument lists up to length %d (single) / %d (multi) over fixed item alphabets incl. the wrap-around counts and "
                "payloads without a Value field; builder argument lists of <= %d arguments of <= 2 bytes over {00, 0a, 40, ff}; deploy and storage-update lists over small "
@@ -353,7 +357,7 @@ def run_c12(run):
     run.cov["tables"] = {"strings": tables[0][1], "transfers": tables[1][1], "builders": tables[2][1]}
     # (V)
     need = dict(str=nstr, xfer=tables[1][1], xfer_value=1000, xfer_error=1000, unspec=20, inverse=1000, msg=20 if quick else 500, deploy=900, su=800,
-                random=nrand, value=10000, error=10000)
+                random=nrand, value=10000, error=10000, bhist=200 if quick else 10000, bhist_reuse=100 if quick else 5000)
     for k, n in need.items():
         run.require(c.get(k, 0) >= n, "%s=%d < %d" % (k, c.get(k, 0), n))
     run.require(c.get("evaluated", 0) >= lines - 10, "evaluated=%d of %d rows" % (c.get("evaluated", 0), lines))
